@@ -106,7 +106,7 @@ func (w Resolver) Resolve(id did.DID, _ *resolver.ResolveMetadata) (*did.Documen
 		return nil, nil, fmt.Errorf("did:web HTTP response read error: %w", err)
 	}
 	var document did.Document
-	err = document.UnmarshalJSON(data)
+	err = unmarshalDocument(data, &document)
 	if err != nil {
 		return nil, nil, fmt.Errorf("did:web JSON unmarshal error: %w", err)
 	}
@@ -126,4 +126,14 @@ func (w Resolver) Resolve(id did.DID, _ *resolver.ResolveMetadata) (*did.Documen
 	}
 
 	return &document, &resolver.DocumentMetadata{}, nil
+}
+
+// unmarshalDocument guards against panics in the DID document parser on malformed (remote) input, e.g. a null verificationMethod entry.
+func unmarshalDocument(data []byte, document *did.Document) (err error) {
+	defer func() {
+		if r := recover(); r != nil {
+			err = fmt.Errorf("malformed DID document: %v", r)
+		}
+	}()
+	return document.UnmarshalJSON(data)
 }
